@@ -296,6 +296,55 @@ def key_function(M: Model, f: FuncInfo, k: Optional[ast.AST]) -> Optional[Tuple[
     return None
 
 
+def call_signature(M: Model, call: ast.Call) -> Optional[List[str]]:
+    """parameter names (without the receiver) of the package function / method / constructor a call refers to, when its name is defined
+    exactly once in the package (name-based: good enough to put keyword arguments in their positional slot)"""
+    name = call.func.attr if isinstance(call.func, ast.Attribute) else (call.func.id if isinstance(call.func, ast.Name) else None)
+    if name is None:
+        return None
+    cands = [f for f in M.functions.values() if f.name == name and not isinstance(f.node, ast.Lambda) and f.kind != "setter" and f.kind != "property"]
+    if name in M.classes:
+        init = M.find_method(M.classes[name], "__init__")
+        cands = [init] if init is not None else []
+    if len(cands) != 1:
+        return None
+    f = cands[0]
+    a = f.node.args
+    if a.vararg or a.kwarg:
+        return None
+    ps = list(f.params)
+    if f.cls is not None and f.kind in ("method", "classmethod") and ps:
+        ps = ps[1:]
+    return ps
+
+
+def pargs(M: Model, call: ast.Call) -> List[ast.AST]:
+    """arguments of a call in parameter order: keyword arguments of a package callee are put in their positional slot when that leaves no gap"""
+    ps = call_signature(M, call)
+    if ps is None or any(isinstance(a, ast.Starred) for a in call.args) or any(k.arg is None for k in call.keywords):
+        return list(call.args)
+    out = list(call.args)
+    kws = {k.arg: k.value for k in call.keywords}
+    while len(out) < len(ps) and ps[len(out)] in kws:
+        out.append(kws[ps[len(out)]])
+    return out
+
+
+def pnorm(M: Model, e: ast.AST) -> str:
+    """norm() of an expression after every call to a package function has its keyword arguments folded into positional ones"""
+    import copy as _copy
+    e2 = _copy.deepcopy(e)
+    for c in [x for x in ast.walk(e2) if isinstance(x, ast.Call)]:
+        new = pargs(M, c)
+        if len(new) != len(c.args):
+            moved = len(new) - len(c.args)
+            ps = call_signature(M, c) or []
+            taken = set(ps[len(c.args):len(new)])
+            c.args = new
+            c.keywords = [k for k in c.keywords if k.arg not in taken]
+    return norm(e2)
+
+
 def stores_to(fnode: ast.AST, name: str) -> List[ast.AST]:
     """statements that (re)bind local `name` in any way (assign, augassign, for target, with, comprehension excluded)"""
     out = []
